@@ -316,7 +316,7 @@ LABS = ['T1|SNV-1-A-T', 'T1|SNV-9-C-G']
 def _label_index(la, lb, lc, hv_a, hv_b, hv_c, oa, ob, oc, same_seq, use_orf_ids):
     """three metadata entries distributed over one or two sequences"""
     labs = [LABS[concretize(x, 0, 1)] for x in (la, lb, lc)]
-    orfs = [(o, o + 30) for o in (oa, ob, oc)]
+    orfs = [(o, o + 30) for o in (concretize(oa, 0, 2), concretize(ob, 0, 2), concretize(oc, 0, 2))]
     hv = [hv_a, hv_b, hv_c]
     vpd = VariantPeptideDict('T1', check_orf=use_orf_ids)
     s1, s2 = Seq('AAAK'), Seq('CCCK')
@@ -347,8 +347,8 @@ def _label_index(la, lb, lc, hv_a, hv_b, hv_c, oa, ob, oc, same_seq, use_orf_ids
     return OK
 
 
-@cond('C04', bounds='3 metadata entries over 1-2 sequences, labels from a 2-label alphabet, has_variants flags and '
-      'UNBOUNDED symbolic ORF starts, with / without ORF ids', encodes=['moPepGen.svgraph.VariantPeptideDict.'
+@cond('C04', bounds='3 metadata entries over 1-2 sequences, labels from a 2-label alphabet, has_variants flags, ORF starts '
+      'in 0..2 (equal or different ORFs), with / without ORF ids', encodes=['moPepGen.svgraph.VariantPeptideDict.'
       'VariantPeptideDict.get_peptide_sequences'],
       codes={-1: 'a header entry string (including its trailing index) occurs twice',
              -2: 'the indices of one label are not 1..n'}, timeout=400)
@@ -356,7 +356,7 @@ def c04_header_index_unique(la: int, lb: int, lc: int, hv_a: bool, hv_b: bool, h
                             ob: int, oc: int, same_seq: bool, use_orf_ids: bool) -> int:
     """
     pre: 0 <= la <= 1 and 0 <= lb <= 1 and 0 <= lc <= 1
-    pre: 0 <= oa and 0 <= ob and 0 <= oc
+    pre: 0 <= oa <= 2 and 0 <= ob <= 2 and 0 <= oc <= 2
     post: _ >= 0
     """
     return _label_index(la, lb, lc, hv_a, hv_b, hv_c, oa, ob, oc, same_seq, use_orf_ids)
@@ -461,7 +461,9 @@ def _table(ops, a0, b0, a1, b1):
         def __exit__(self, *a):
             return False
 
-    import moPepGen.svgraph.VariantPeptideTable as vpt
+    import sys as _sys
+    import moPepGen.svgraph.VariantPeptideTable  # noqa: F401
+    vpt = _sys.modules['moPepGen.svgraph.VariantPeptideTable']
     with patched((vpt, 'open', lambda *a, **k: _H()), (vpt.FastaIO, 'FastaWriter', _W)):
         table.write_fasta('x.fasta')
     seqs = [s for s, _ in written]
